@@ -325,9 +325,20 @@ class DropOne(Dense_):
         self._row = row
         self._ind = ind
 
-    def __getitem__(self, key: int):
+    def __getitem__(self, key: Union[int,str]):
+        if key.__class__ is not int:
+            #a header name: its position in the full row is the one to read (the dropped column has no name here)
+            key = self._row.headers[key]
+            if key == self._ind: raise KeyError(key)
+            return self._row[key]
         if key >= self._ind: key += 1
         return self._row[key]
+
+    @property
+    def headers(self) -> Mapping[str,int]:
+        #the names of the columns that are left with their positions in this row
+        ind = self._ind
+        return { h:(i if i < ind else i-1) for h,i in self._row.headers.items() if i != ind }
 
     def __iter__(self) -> Iterator:
         row = self._row
